@@ -31,11 +31,11 @@ CLAIMED = {
    ref="4 C08"),
  "C09": dict(
    technique="table agreement between the display validator/computer vocabulary and makeBox's display → box class switch (AST + constants) against the CSS Display table + must-precede order of the anonymous-box passes on SSA",
-   text="Thin: decides that every display value that can be produced has the box class the CSS Display table prescribes, that the anonymous-box passes run in the required order, that the flex and grid item fix-ups apply to block-level and inline-level containers alike, and that an element with display none reaches no box creation, style write or recursion in elementToBox. What each rewriting pass does (block-in-inline splitting, table wrapping, blockification) and the table grid (spans) are not decided.",
+   text="Thin: decides that every display value that can be produced has the box class the CSS Display table prescribes, that the anonymous-box passes run in the required order, that the flex and grid item fix-ups apply to block-level and inline-level containers alike, that an element with display none reaches no box creation, style write or recursion in elementToBox, and that table cells span at least one column. What each rewriting pass does (block-in-inline splitting, table wrapping, blockification) and the table grid (spans) are not decided.",
    ref="4 C09"),
  "C10": dict(
    technique="provenance rules on SSA (field stored / accessor read / property id triple of every resolveOnePercentage call; trace of the reference length back to the components of the containing-block parameter, with the page-box test as path condition) + dominance order and write sets of the min/max wrappers + per-keyword dependence sets of the box-sizing adjustment (path-condition selection of phi edges)",
-   text="Thin: decides that every percentage-resolved used value is stored in the field of the property it was read from and refers to the right dimension of the containing block (vertical margins/paddings to the width except for page boxes), that max is clamped before min with the wrapped function re-run and only the own axis written, that the box-sizing adjustment depends on the paddings/borders CSS names for each keyword, and that side-mirrored assignment pairs of the layout code are mirrored consistently. The width equation 10.3.3, auto margins, margin collapsing and auto heights are numerical relations between runtime values and are not decided.",
+   text="Thin: decides that every percentage-resolved used value is stored in the field of the property it was read from and refers to the right dimension of the containing block (vertical margins/paddings to the width except for page boxes), that max is clamped before min with the wrapped function re-run and only the own axis written, that the box-sizing adjustment depends on the paddings/borders CSS names for each keyword, that side-mirrored assignment pairs are mirrored consistently and that sums over margins, paddings and borders use consistent sides (one reproduced flex defect fixed). The width equation 10.3.3, auto margins, margin collapsing and auto heights are numerical relations between runtime values and are not decided.",
    ref="4 C10"),
  "C11": dict(
    technique="keyword-set extraction of every white-space classification test (AST boolean chains over values derived from GetWhiteSpace) compared with the CSS Text classes and a per-function table confirmed by reading + validator/consumer vocabulary agreement",
@@ -43,7 +43,7 @@ CLAIMED = {
    ref="4 C11"),
  "C12": dict(
    technique="keyword-set extraction of the forced/avoid break predicates and of the sibling-resolution choice table (AST + constants) compared with the CSS Fragmentation sets + producer/consumer vocabulary agreement + division guard on the :nth() page arithmetic",
-   text="Thin: decides that the forced and avoid break vocabularies are the CSS Fragmentation sets (column variants only in columns), that every break value the validators emit is classified, that forced beats avoid beats auto between siblings, and that :nth() page matching never divides by zero. Page geometry, actual break positions, orphans/widows and blank-page insertion are not decided.",
+   text="Thin: decides that the forced and avoid break vocabularies are the CSS Fragmentation sets (column variants only in columns), that every break value the validators emit is classified, that forced beats avoid beats auto between siblings, that :nth() page matching never divides by zero, and that the box-edge sums of the fragmentation code use consistent sides. Page geometry, actual break positions, orphans/widows and blank-page insertion are not decided.",
    ref="4 C12"),
  "C14": dict(
    technique="typestate analysis of the backend's current path over SSA (states Empty/NonEmpty, per-entry-state function summaries to a fixpoint, closures entered at their OnNewStack site, CHA for interface calls, non-empty range loops, case split on enum parameters from call-site constant sets) + loop/dominance rules on the page protocol + path-condition guards on link resolution + provenance of metadata and font values",
